@@ -29,14 +29,26 @@
 #ifndef XN
 #define XN 16
 #endif
+/* -DXWIDE: room for a stanza element (5 attributes, 18 child slots); the default sizes keep the nonza proofs small.
+   In this mode child slots are SPARSE: a child sits in slot (its id - its parent's id - 1).  With the units' id reservation
+   (xw_pad) ids are the same constants on all paths, hence so are the slots; document order is kept (ids grow in writing
+   order), absent children are empty slots. */
+#ifdef XWIDE
+#define XA 5
+#define XC 18
+#define XWIDE_ONLY(x) x
+#else
 #define XA 4
 #define XC 8
+#define XWIDE_ONLY(x)
+#endif
 #define XD 6
 typedef struct xopen { int id; qstr tag, ns, text; int nattr; qstr ak[XA], av[XA]; int nchild; int child[XC]; } xopen;
 typedef struct xtree {
   /* committed elements, one array per field, index = element id */
   qstr tag[XN + 1], ns[XN + 1], text[XN + 1];
   int nattr[XN + 1]; qstr ak0[XN + 1], ak1[XN + 1], ak2[XN + 1], ak3[XN + 1], av0[XN + 1], av1[XN + 1], av2[XN + 1], av3[XN + 1];
+  XWIDE_ONLY(qstr ak4[XN + 1]; qstr av4[XN + 1]; int c8[XN + 1]; int c9[XN + 1]; int c10[XN + 1]; int c11[XN + 1]; int c12[XN + 1]; int c13[XN + 1]; int c14[XN + 1]; int c15[XN + 1]; int c16[XN + 1]; int c17[XN + 1];)
   int nchild[XN + 1]; int c0[XN + 1], c1[XN + 1], c2[XN + 1], c3[XN + 1], c4[XN + 1], c5[XN + 1], c6[XN + 1], c7[XN + 1];
   int parent[XN + 1];
   /* elements being written */
@@ -64,6 +76,7 @@ static inline void xw_commit(const xopen *o, int parent) {
   gh_x.nchild[id] = o->nchild;
   gh_x.c0[id] = o->child[0]; gh_x.c1[id] = o->child[1]; gh_x.c2[id] = o->child[2]; gh_x.c3[id] = o->child[3];
   gh_x.c4[id] = o->child[4]; gh_x.c5[id] = o->child[5]; gh_x.c6[id] = o->child[6]; gh_x.c7[id] = o->child[7];
+  XWIDE_ONLY(gh_x.ak4[id] = o->ak[4]; gh_x.av4[id] = o->av[4]; gh_x.c8[id] = o->child[8]; gh_x.c9[id] = o->child[9]; gh_x.c10[id] = o->child[10]; gh_x.c11[id] = o->child[11]; gh_x.c12[id] = o->child[12]; gh_x.c13[id] = o->child[13]; gh_x.c14[id] = o->child[14]; gh_x.c15[id] = o->child[15]; gh_x.c16[id] = o->child[16]; gh_x.c17[id] = o->child[17];)
   gh_x.parent[id] = parent;
 }
 static inline void xw_flush(void) { gh_x.has_pending = false; }
@@ -78,13 +91,20 @@ static inline void xw_new(xopen *o, qstr name) {
   if (name == 0) gh_x.wf = false;                       /* an element without a name is not XML */
   o->id = id; o->tag = name; o->text = 0; o->nattr = 0; o->nchild = 0;
   o->ak[0] = 0; o->ak[1] = 0; o->ak[2] = 0; o->ak[3] = 0; o->av[0] = 0; o->av[1] = 0; o->av[2] = 0; o->av[3] = 0;
+  XWIDE_ONLY(o->ak[4] = 0; o->av[4] = 0; o->child[8] = 0; o->child[9] = 0; o->child[10] = 0; o->child[11] = 0; o->child[12] = 0; o->child[13] = 0; o->child[14] = 0; o->child[15] = 0; o->child[16] = 0; o->child[17] = 0;)
   o->child[0] = 0; o->child[1] = 0; o->child[2] = 0; o->child[3] = 0; o->child[4] = 0; o->child[5] = 0; o->child[6] = 0; o->child[7] = 0;
   if (gh_x.depth > 0) {
     xopen *par = &gh_x.s[gh_x.depth - 1];
     o->ns = par->ns;                                     /* inherits the default namespace */
-    MODEL_LIMIT(par->nchild < XC, "abstract XML: more child elements than the ghost tree holds");
     MODEL_LIMIT(par->text == 0, "abstract XML: mixed content (child element after text)");
+#ifdef XWIDE
+    int slot = id - par->id - 1;
+    MODEL_LIMIT(slot >= 0 && slot < XC, "abstract XML: more child slots than the ghost tree holds");
+    if (slot >= 0 && slot < XC) { par->child[slot] = id; if (par->nchild < slot + 1) par->nchild = slot + 1; }
+#else
+    MODEL_LIMIT(par->nchild < XC, "abstract XML: more child elements than the ghost tree holds");
     if (par->nchild < XC) { par->child[par->nchild] = id; par->nchild++; }
+#endif
   } else o->ns = 0;
   if (gh_x.depth == gh_x.base) { if (gh_x.roots == 0) gh_x.root = id; if (gh_x.roots < 1000) gh_x.roots++; }
 }
@@ -105,7 +125,7 @@ static inline void xw_writeEndElement(xw *w) { (void)w;
 /* attributes and namespace declarations go to the innermost element while its start tag is open */
 static inline void xw_attr_into(xopen *t, qstr k, qstr v) {
   if (k == 0) { gh_x.wf = false; return; }
-  if ((t->nattr > 0 && t->ak[0] == k) || (t->nattr > 1 && t->ak[1] == k) || (t->nattr > 2 && t->ak[2] == k) || (t->nattr > 3 && t->ak[3] == k)) { gh_x.wf = false; return; }
+  if ((t->nattr > 0 && t->ak[0] == k) || (t->nattr > 1 && t->ak[1] == k) || (t->nattr > 2 && t->ak[2] == k) || (t->nattr > 3 && t->ak[3] == k) XWIDE_ONLY(|| (t->nattr > 4 && t->ak[4] == k))) { gh_x.wf = false; return; }
   MODEL_LIMIT(t->nattr < XA, "abstract XML: more attributes than the ghost tree holds");
   if (t->nattr < XA) { t->ak[t->nattr] = k; t->av[t->nattr] = v; t->nattr++; } }
 static inline void xw_writeDefaultNamespace(xw *w, qstr ns) { (void)w;
@@ -146,27 +166,34 @@ static inline qstr xdom_attribute(qdom e, qstr name) {
   if (n > 1 && gh_x.ak1[e] == name) return gh_x.av1[e];
   if (n > 2 && gh_x.ak2[e] == name) return gh_x.av2[e];
   if (n > 3 && gh_x.ak3[e] == name) return gh_x.av3[e];
+  XWIDE_ONLY(if (n > 4 && gh_x.ak4[e] == name) return gh_x.av4[e];)
   return 0; }
 static inline bool xdom_hasAttribute(qdom e, qstr name) {
   if (!X_BUILT(e)) { if (e == 0) return false; if (__CPROVER_uninterpreted_dom_attr(e, name) != 0) return true; return __CPROVER_uninterpreted_dom_has_attr(e, name); }
   int n = gh_x.nattr[e];
-  return (n > 0 && gh_x.ak0[e] == name) || (n > 1 && gh_x.ak1[e] == name) || (n > 2 && gh_x.ak2[e] == name) || (n > 3 && gh_x.ak3[e] == name); }
+  return (n > 0 && gh_x.ak0[e] == name) || (n > 1 && gh_x.ak1[e] == name) || (n > 2 && gh_x.ak2[e] == name) || (n > 3 && gh_x.ak3[e] == name) XWIDE_ONLY(|| (n > 4 && gh_x.ak4[e] == name)); }
 static inline bool xdom_match(int c, qstr tag, qstr ns) { return X_BUILT(c) && (tag == 0 || gh_x.tag[c] == tag) && (ns == 0 || gh_x.ns[c] == ns); }
 /* first child element at position >= from that matches the (possibly empty) filters */
 static inline qdom xdom_child_from(qdom e, int from, qstr tag, qstr ns) {
   int n = gh_x.nchild[e];
 #define XSTEP(i, arr) if (from <= i && i < n && xdom_match(gh_x.arr[e], tag, ns)) return gh_x.arr[e];
   XSTEP(0, c0) XSTEP(1, c1) XSTEP(2, c2) XSTEP(3, c3) XSTEP(4, c4) XSTEP(5, c5) XSTEP(6, c6) XSTEP(7, c7)
+  XWIDE_ONLY(XSTEP(8, c8) XSTEP(9, c9) XSTEP(10, c10) XSTEP(11, c11) XSTEP(12, c12) XSTEP(13, c13) XSTEP(14, c14) XSTEP(15, c15) XSTEP(16, c16) XSTEP(17, c17))
 #undef XSTEP
   return 0; }
 static inline int xdom_index_in_parent(qdom e) {
   int p = gh_x.parent[e];
   if (!X_BUILT(p)) return XC;
+#ifdef XWIDE
+  return e - p - 1;
+#else
   int n = gh_x.nchild[p];
 #define XSTEP(i, arr) if (i < n && gh_x.arr[p] == e) return i;
   XSTEP(0, c0) XSTEP(1, c1) XSTEP(2, c2) XSTEP(3, c3) XSTEP(4, c4) XSTEP(5, c5) XSTEP(6, c6) XSTEP(7, c7)
 #undef XSTEP
-  return XC; }
+  return XC;
+#endif
+}
 /* foreign elements: children of a foreign element are foreign */
 static inline qdom xdom_firstChildElement(qdom e, qstr tag, qstr ns) {
   if (X_BUILT(e)) return xdom_child_from(e, 0, tag, ns);
